@@ -94,6 +94,27 @@ def materialise(value, world):
     return conv(value)
 
 
+def in_other_thread(fn, actor=None):
+    """Run fn() to completion in a helper thread (sequentially: started and joined at once).  A caller may hand
+    an iterator to another thread; nothing here is concurrent."""
+    import threading
+    box = {}
+
+    def body():
+        try:
+            if actor is not None:
+                actor.activate()        # the simulated network is selected per thread
+            box["r"] = fn()
+        except BaseException as e:
+            box["e"] = e
+    th = threading.Thread(target=body, name="dsim-helper")
+    th.start()
+    th.join()
+    if "e" in box:
+        raise box["e"]
+    return box.get("r")
+
+
 def default_cfg(rng=None, **over):
     cfg = {"cache_remote": True, "urljoin_cache": "lru", "remote_cache": "lru",
            "handler_schemes": ["http", "https", "sim"], "base_mode": "from_schema",
@@ -121,7 +142,7 @@ def gen_cfg(rng, world, fault_rate=0.35):
 
 
 class Actor(object):
-    def __init__(self, world, cfg, router, calls=None, shared_from=None):
+    def __init__(self, world, cfg, router, calls=None, shared_from=None, store_from=None):
         from jsonschema import RefResolver
         self.world = world
         self.cfg = cfg
@@ -149,6 +170,10 @@ class Actor(object):
             keys = world.get("store_keys") or {}
             store = dict((keys.get(u, u), shared_from.resolver.store[u]) for u in store_urls)
         self.root = root
+        if store_from is not None:
+            # the caller hands over ANOTHER resolver's public `.store` object as store= (the documented way to
+            # seed a resolver with documents): the new resolver must take the documents, not the object
+            store = store_from.resolver.store
         handlers = dict((s, self.transport.handler) for s in cfg.get("handler_schemes", ()))
         holder = []
 
@@ -459,7 +484,12 @@ def do_op(actor, op, instances):
               out = {"k": "none"}
           elif kind in ("take_close", "take_drop", "take_cycle"):
               t = IterTask(actor, inst, v, low_stack=deep)
-              t.take(op["k"])
+              if op.get("elsewhere") == "start":
+                  in_other_thread(lambda: t.take(1), actor)       # first step on another thread, the rest here
+                  t.take(max(0, op["k"] - 1))
+                  actor.probe("iterator_crossed_threads")
+              else:
+                  t.take(op["k"])
               d = actor.depth()
               if t.suspended():
                   actor.probe("abandon_suspended")
@@ -467,8 +497,14 @@ def do_op(actor, op, instances):
                       actor.probe("abandon_with_scopes_pushed")
                   if d >= 3:
                       actor.probe("abandon_with_2plus_scopes_pushed")
-              if kind == "take_close":
+              if kind == "take_close" and op.get("elsewhere") == "finish":
+                  in_other_thread(t.close, actor)                 # advanced here, closed on another thread
+                  actor.probe("iterator_crossed_threads")
+              elif kind == "take_close":
                   t.close()
+              elif kind == "take_drop" and op.get("elsewhere") == "finish":
+                  in_other_thread(t.drop, actor)
+                  actor.probe("iterator_crossed_threads")
               elif kind == "take_drop":
                   t.drop()
               else:
